@@ -247,25 +247,34 @@ class StepRule:
         self.by_value = set()
         self.enumerated = False
         self.initial = set()
+        self.text_empty = None      # None: unknown; True / False: the text is assumed empty / non-empty (result ties)
 
     def inline_ok(self, I, ci, body):
         from .common import pure_helper
         return pure_helper(body, self.fn.npath.rsplit('::', 1)[0])
 
-    def state(self, w, depth, prev=None, first=False):
-        """named integer locals of the helper's frame plus the pseudo variable `#n`: the number of items the iterator has
-        yielded so far (exact up to the widening bound, like every other counter)"""
+    def state(self, w, depth, prev=None, evs=()):
+        """named integer locals of the helper's frame plus pseudo variables (exact up to the widening bound, like every
+        other counter): `#n` the number of items the iterator has yielded so far, `#s` the number of those on which the scalar
+        decoder reported a completed scalar, `#l` whether the last byte fed to the decoder completed one (1 at the start)"""
         from .. import absint
         out = []
         for (d, l), v in w.store.items():
             if d == depth and l in self.named and v[0] == 'int':
                 out.append((self.named[l], v))
-        if first or prev is None:
-            n = const_int(0)
+        wide = ('int', frozenset(), 0)
+        if prev is None:
+            n, sc, last = const_int(0), const_int(0), const_int(1)
         else:
-            k = int_singleton(dict(prev).get('#n', ('int', frozenset(), 0)))
-            n = const_int(k + 1) if k is not None and k + 1 < absint.WIDEN_AT else ('int', frozenset(), 0)
-        out.append(('#n', n))
+            pd = dict(prev)
+            k = int_singleton(pd.get('#n', wide))
+            n = const_int(k + 1) if k is not None and k + 1 < absint.WIDEN_AT else wide
+            pushes = [e for e in evs if e[0] == 'push']
+            k = int_singleton(pd.get('#s', wide))
+            k2 = None if k is None else k + sum(1 for e in pushes if e[3] == 'Some')
+            sc = const_int(k2) if k2 is not None and k2 < absint.WIDEN_AT else wide
+            last = const_int(1 if pushes[-1][3] == 'Some' else 0) if pushes else pd.get('#l', wide)
+        out += [('#n', n), ('#s', sc), ('#l', last)]
         return tuple(sorted(out))
 
     def on_call(self, I, w, ci, args):
@@ -294,7 +303,7 @@ class StepRule:
             it = args[0]
             itv = I.read(w, it[1]) if it[0] == 'ref' else it
             prev, evs = w.st
-            cur = self.state(w, ci.depth, prev)
+            cur = self.state(w, ci.depth, prev, evs)
             if prev is not None:
                 self.steps.add((prev, evs, cur))
             else:
@@ -312,7 +321,12 @@ class StepRule:
             if enum:
                 # `enumerate` pairs each element with its exact position: the number of items yielded before it
                 item = ('tuple', (dict(cur)['#n'], item))
-            return [(w.with_st((cur, (('over', name),))), some(item)), (w.with_st((cur, (('end', name),))), none())]
+            outs = [(w.with_st((cur, (('over', name),))), some(item)), (w.with_st((cur, (('end', name),))), none())]
+            if self.text_empty is True:
+                return outs[1:]
+            if self.text_empty is False and prev is None:
+                return outs[:1]
+            return outs
         if p.endswith('Utf8Accum::push_byte'):
             prev, evs = w.st
             acc = I.read(w, args[0][1]) if args[0][0] == 'ref' else args[0]
@@ -320,7 +334,11 @@ class StepRule:
             lab = ('push', acc[1] if acc[0] == 'sym' else '?', b[1] if b[0] == 'sym' else '?')
             return [(w.with_st((prev, evs + (lab + ('Some',),))), some(TOP)), (w.with_st((prev, evs + (lab + ('None',),))), none())]
         if ci.npath in ('core::str::<impl str>::len', 'core::slice::<impl [T]>::len'):
+            if self.text_empty is not None:
+                return [(w, const_int(0) if self.text_empty else ('int', frozenset(), 1))]
             return [(w, ('int', frozenset(), 0))]
+        if ci.npath in ('core::str::<impl str>::is_empty', 'core::slice::<impl [T]>::is_empty') and self.text_empty is not None:
+            return [(w, TRUE if self.text_empty else FALSE)]
         return None
 
 
@@ -334,7 +352,7 @@ class ClassStepRule(StepRule):
             it = args[0]
             itv = I.read(w, it[1]) if it[0] == 'ref' else it
             prev, evs = w.st
-            cur = self.state(w, ci.depth, prev)
+            cur = self.state(w, ci.depth, prev, evs)
             if prev is not None:
                 self.steps.add((prev, evs, cur))
             else:
@@ -500,6 +518,58 @@ def returned_vars(exits, names):
     return cands if seen_pos else set()
 
 
+def check_index_tie(res, lib, f, np_):
+    """`char_byte_index(text, k)` for k = 0..3, every sequence of decoder answers: `Some(p)` is returned exactly when k scalars
+    have been completed, the last byte consumed completed one (or none was consumed), and p is the number of bytes consumed;
+    the loop never consumes a byte from that situation on; `None` is returned only when the text is exhausted with at most
+    k scalars completed."""
+    from .. import absint
+    bad = None
+    nex = 0
+    for k, empty in [(k_, e_) for k_ in range(4) for e_ in (False, True)]:
+        rule = StepRule(f)
+        rule.text_empty = empty
+        I = Interp([lib], rule)
+        args = []
+        for i in range(1, f.body['arg_count'] + 1):
+            ty = f.body['locals'][i]['ty']
+            args.append(('sym', f.body['locals'][i]['name']) if ty.get('k') == 'ref' else const_int(k))
+        for w, rv in I.run(f, args, (None, ()), {}):
+            st, evs = w.st if isinstance(w.st, tuple) and len(w.st) == 2 else (None, ())
+            d = dict(st) if st is not None else {'#n': const_int(0), '#s': const_int(0), '#l': const_int(1)}
+            n0, s0, l0 = (int_singleton(d.get(x, ('top',))) for x in ('#n', '#s', '#l'))
+            if None in (n0, s0, l0):
+                continue            # beyond the exact prefix of the exploration
+            pushes = [e for e in evs if e[0] == 'push']
+            at_end = any(e[0] == 'end' for e in evs) or (empty and st is None)
+            consumed = n0 + (1 if pushes else 0)
+            somes = s0 + sum(1 for e in pushes if e[3] == 'Some')
+            last = (pushes[-1][3] == 'Some') if pushes else l0 == 1
+            if consumed + 1 >= absint.WIDEN_AT:
+                continue            # counters of the code itself may already be widened here
+            nex += 1
+            if rv[0] == 'adt' and rv[1] == OPTION and rv[2] == 1:
+                r = int_singleton(rv[3][0]) if rv[3][0][0] == 'int' else None
+                if not (r == consumed and somes == k and last) and bad is None:
+                    bad = "for character index %d it returns Some(%s) after %d bytes with %d completed scalars%s" % (
+                        k, r, consumed, somes, '' if last else ', the last byte being inside a character')
+            elif rv[0] == 'adt' and rv[1] == OPTION and rv[2] == 0:
+                if not (at_end and somes <= k) and bad is None:
+                    bad = "for character index %d it returns None after %d bytes with %d completed scalars%s" % (
+                        k, consumed, somes, '' if at_end else ' although bytes remain')
+            elif bad is None:
+                bad = "for character index %d the result %s is not an Option of a byte count" % (k, rv[:2])
+        for prev, evs, cur in rule.steps:
+            pd = dict(prev)
+            if int_singleton(pd.get('#s', ('top',))) == k and int_singleton(pd.get('#l', ('top',))) == 1 and bad is None:
+                bad = "for character index %d it consumes another byte after %s bytes although %d scalars are complete" % (
+                    k, int_singleton(pd.get('#n', ('top',))), k)
+    good = bad is None and nex >= 8
+    res.oblige("D|%s|result-tie|%d" % (np_, nex), good, sample="%s: result tied to the decoder's answers at %d exits (k = 0..3)" % (np_, nex),
+               violation=None if good else dict(rule='C17.counting', key="C17|counting|%s|tie" % np_,
+                                                msg="%s: %s" % (np_, bad or "only %d exits observed" % nex)))
+
+
 def check_snap_by_class(res, lib, f, rule, classes, exits):
     """`common_prefix_len` without the scalar decoder: the extracted step relation (state, byte class) -> state is run from
     the initial state over every pair of well-formed byte-class sequences of Unicode Table 3-7; the returned variable must
@@ -511,7 +581,7 @@ def check_snap_by_class(res, lib, f, rule, classes, exits):
         cl = [e[1] for e in evs if e[0] == 'class']
         if len(cl) == 1:
             trans.setdefault((prev, cl[0]), set()).add(cur)
-            names |= {n for n, _ in prev if n != '#n'}
+            names |= {n for n, _ in prev if not n.startswith('#')}
     cands = returned_vars(exits, names)
     seqs = spec.wellformed_class_sequences(classes)
     bad = {}
@@ -594,7 +664,7 @@ def check_counting_by_class(res, lib, f, sp):
             continue         # bytes that never occur in well-formed text
         pd, cd = dict(prev), dict(cur)
         for cn in pd:
-            if cn not in cd or cn == '#n':
+            if cn not in cd or cn.startswith('#'):
                 continue
             a, b = int_singleton(pd[cn]), int_singleton(cd[cn])
             if a is None or b is None:
@@ -616,6 +686,16 @@ def check_counting_by_class(res, lib, f, sp):
                        msg=("%s: a byte in [%s] (%s of a scalar) is counted %s, expected %s" % (
                            f.npath, worst[1], 'the first byte' if worst[2] else 'a continuation byte', [worst[3]], 'once' if worst[2] else 'not at all'))
                        if worst else "%s: no variable of the loop counts scalars" % f.npath))
+    if sp.get('tie') == 'count':
+        names = {n for st in rule.steps for n, _ in st[0] if not n.startswith('#')}
+        cands = returned_vars(exits, names)
+        good = bool(set(cands) & set(scalar_counters))
+        res.oblige("D|%s|result-tie" % f.npath, good, sample="%s: returns its scalar counter" % f.npath,
+                   violation=None if good else dict(rule='C17.counting', key="C17|counting|%s|tie" % f.npath,
+                                                    msg="%s: what it returns (%s) is not the counter that steps once per scalar (%s)" % (
+                                                        f.npath, sorted(cands), scalar_counters)))
+    elif sp.get('tie') == 'index':
+        raise KeyError("%s: without the scalar decoder the returned index cannot be tied to scalar boundaries" % f.npath)
     res.samples.append("%s: judged per byte class (%d steps)" % (f.npath, len(rule.steps)))
 
 
@@ -623,8 +703,8 @@ def check_counting(res, lib):
     # roles a helper's loop must contain (found by behaviour, not by name): a `some` counter steps by one exactly when the
     # accumulator reports a completed scalar, an `always` counter steps by one on every byte
     spec_ = {
-        'utils::char_count': dict(over='iter(%s)', byte='b', roles=('some',)),
-        'utils::char_byte_index': dict(over='iter(%s)', byte='b', roles=('some', 'always')),
+        'utils::char_count': dict(over='iter(%s)', byte='b', roles=('some',), tie='count'),
+        'utils::char_byte_index': dict(over='iter(%s)', byte='b', roles=('some', 'always'), tie='index'),
         'utils::common_prefix_len': dict(over='zip(iter(%s),iter(%s))', byte='b1', roles=('always', 'snap')),
     }
     for np_, sp in spec_.items():
@@ -663,7 +743,7 @@ def check_counting(res, lib):
                 pd, cd = dict(prev), dict(cur)
                 n_after = int_singleton(cd.get('#n', ('top',)))
                 for c in pd:
-                    if c not in cd or c == '#n':
+                    if c not in cd or c.startswith('#'):
                         continue
                     a, b = int_singleton(pd[c]), int_singleton(cd[c])
                     if a is None or b is None:
@@ -681,7 +761,7 @@ def check_counting(res, lib):
         found = {'some': [c for c, bs in behaviour.items() if bs == {('Some', 1), ('None', 0)}],
                  'always': [c for c, bs in behaviour.items() if bs == {('Some', 1), ('None', 1)}]}
         if 'snap' in sp['roles']:
-            names = {n for st in rule.steps for n, _ in st[0] if n != '#n'}
+            names = {n for st in rule.steps for n, _ in st[0] if not n.startswith('#')}
             cands = returned_vars(exits, names)
             goodv = sorted(c for c in cands if c in snapped and c not in snap)
             good = bool(goodv)
@@ -700,6 +780,16 @@ def check_counting(res, lib):
                            msg="%s: no variable of the loop %s (observed per variable: %s)" % (
                                np_, "steps by one exactly when the accumulator reports a completed scalar" if role == 'some'
                                else "steps by one on every byte", {c: sorted(bs) for c, bs in behaviour.items()})))
+        if sp.get('tie') == 'count':
+            names = {n for st in rule.steps for n, _ in st[0] if not n.startswith('#')}
+            cands = returned_vars(exits, names)
+            good = bool(set(cands) & set(found['some']))
+            res.oblige("D|%s|result-tie" % np_, good, sample="%s: returns its scalar counter %s" % (np_, sorted(set(cands) & set(found['some']))),
+                       violation=None if good else dict(rule='C17.counting', key="C17|counting|%s|tie" % np_,
+                                                        msg="%s: what it returns (%s) is not the counter that steps once per completed scalar (%s)" % (
+                                                            np_, sorted(cands), found['some'])))
+        elif sp.get('tie') == 'index':
+            check_index_tie(res, lib, f, np_)
         res.samples.append("%s: %d loop steps checked" % (np_, len(rule.steps)))
 
 
